@@ -3,6 +3,7 @@ package transport
 import (
 	"bufio"
 	"context"
+	"errors"
 	"fmt"
 	"io"
 
@@ -13,7 +14,6 @@ import (
 	"github.com/go-git/go-git/v6/plumbing/protocol/capability"
 	"github.com/go-git/go-git/v6/plumbing/protocol/packp"
 	"github.com/go-git/go-git/v6/plumbing/protocol/packp/sideband"
-	"github.com/go-git/go-git/v6/plumbing/storer"
 	"github.com/go-git/go-git/v6/storage"
 	"github.com/go-git/go-git/v6/utils/ioutil"
 )
@@ -196,7 +196,7 @@ func ReceivePack(
 
 	writeCloser := ioutil.NewWriteCloser(writer, w)
 	if unpackErr != nil {
-		res := sendReportStatus(writeCloser, unpackErr, nil)
+		res := sendReportStatus(writeCloser, unpackErr, nil, nil)
 		_ = closeWriter(w)
 		return res
 	}
@@ -209,11 +209,11 @@ func ReceivePack(
 			Progress:    progress,
 		}
 		if hookErr := opts.Hooks.PreReceive(ctx, info); hookErr != nil {
-			rejected := make(map[plumbing.ReferenceName]error, len(updreq.Commands))
-			for _, cmd := range updreq.Commands {
-				rejected[cmd.Name] = hookErr
+			rejected := make([]error, len(updreq.Commands))
+			for i := range updreq.Commands {
+				rejected[i] = hookErr
 			}
-			if err := sendReportStatus(writeCloser, nil, rejected); err != nil {
+			if err := sendReportStatus(writeCloser, nil, updreq.Commands, rejected); err != nil {
 				_ = closeWriter(w)
 				return err
 			}
@@ -230,14 +230,12 @@ func ReceivePack(
 		}
 	}
 
-	var firstErr error
-	cmdStatus := make(map[plumbing.ReferenceName]error)
-	updateReferences(st, updreq, cmdStatus, &firstErr)
+	cmdStatus, firstErr := updateReferences(st, updreq)
 
 	if opts.Hooks.PostReceive != nil {
 		applied := make([]*packp.Command, 0, len(updreq.Commands))
-		for _, cmd := range updreq.Commands {
-			if cmdStatus[cmd.Name] == nil {
+		for i, cmd := range updreq.Commands {
+			if cmdStatus[i] == nil {
 				applied = append(applied, cmd)
 			}
 		}
@@ -250,7 +248,9 @@ func ReceivePack(
 		_ = opts.Hooks.PostReceive(ctx, info)
 	}
 
-	if err := sendReportStatus(writeCloser, firstErr, cmdStatus); err != nil {
+	// The pack was unpacked: per-command failures are reported on their own
+	// "ng" lines, not as an unpack failure.
+	if err := sendReportStatus(writeCloser, nil, updreq.Commands, cmdStatus); err != nil {
 		return err
 	}
 
@@ -278,83 +278,85 @@ func closeWriter(w io.WriteCloser) error {
 	return nil
 }
 
-func sendReportStatus(w io.WriteCloser, unpackErr error, cmdStatus map[plumbing.ReferenceName]error) error {
+// sendReportStatus writes the report-status: the unpack status followed by
+// exactly one status per command, in command order. cmdStatus[i] is the
+// outcome of cmds[i].
+func sendReportStatus(w io.WriteCloser, unpackErr error, cmds []*packp.Command, cmdStatus []error) error {
 	rs := &packp.ReportStatus{}
 	rs.UnpackStatus = "ok"
 	if unpackErr != nil {
 		rs.UnpackStatus = unpackErr.Error()
 	}
 
-	for ref, err := range cmdStatus {
+	for i, cmd := range cmds {
 		msg := "ok"
-		if err != nil {
+		if err := cmdStatus[i]; err != nil {
 			msg = err.Error()
 		}
-		status := &packp.CommandStatus{
-			ReferenceName: ref,
+		rs.CommandStatuses = append(rs.CommandStatuses, &packp.CommandStatus{
+			ReferenceName: cmd.Name,
 			Status:        msg,
-		}
-		rs.CommandStatuses = append(rs.CommandStatuses, status)
+		})
 	}
 
-	if err := rs.Encode(w); err != nil {
+	return rs.Encode(w)
+}
+
+// updateReferences executes the commands one after the other. A command is
+// applied only if the reference currently holds the old value the client sent
+// and, unless it is a delete, the new object exists in the storer. It returns
+// one status per command (nil means applied) and the first failure.
+func updateReferences(st storage.Storer, req *packp.UpdateRequests) ([]error, error) {
+	var firstErr error
+	status := make([]error, len(req.Commands))
+	for i, cmd := range req.Commands {
+		err := updateReference(st, cmd)
+		status[i] = err
+		if firstErr == nil && err != nil {
+			firstErr = err
+		}
+	}
+	return status, firstErr
+}
+
+func updateReference(st storage.Storer, cmd *packp.Command) error {
+	cur, err := st.Reference(cmd.Name)
+	exists := err == nil
+	if err != nil && !errors.Is(err, plumbing.ErrReferenceNotFound) {
 		return err
 	}
 
-	return nil
-}
-
-func setStatus(cmdStatus map[plumbing.ReferenceName]error, firstErr *error, ref plumbing.ReferenceName, err error) {
-	cmdStatus[ref] = err
-	if *firstErr == nil && err != nil {
-		*firstErr = err
-	}
-}
-
-func referenceExists(s storer.ReferenceStorer, n plumbing.ReferenceName) (bool, error) {
-	_, err := s.Reference(n)
-	if err == plumbing.ErrReferenceNotFound {
-		return false, nil
+	action := cmd.Action()
+	if action == packp.Create || action == packp.Update {
+		if err := st.HasEncodedObject(cmd.New); err != nil {
+			return fmt.Errorf("%w: missing object %s", ErrUpdateReference, cmd.New)
+		}
 	}
 
-	return err == nil, err
-}
-
-func updateReferences(st storage.Storer, req *packp.UpdateRequests, cmdStatus map[plumbing.ReferenceName]error, firstErr *error) {
-	for _, cmd := range req.Commands {
-		exists, err := referenceExists(st, cmd.Name)
-		if err != nil {
-			setStatus(cmdStatus, firstErr, cmd.Name, err)
-			continue
+	switch action {
+	case packp.Create:
+		if exists {
+			return ErrUpdateReference
 		}
-
-		switch cmd.Action() {
-		case packp.Create:
-			if exists {
-				setStatus(cmdStatus, firstErr, cmd.Name, ErrUpdateReference)
-				continue
-			}
-
-			ref := plumbing.NewHashReference(cmd.Name, cmd.New)
-			err := st.SetReference(ref)
-			setStatus(cmdStatus, firstErr, cmd.Name, err)
-		case packp.Delete:
-			if !exists {
-				setStatus(cmdStatus, firstErr, cmd.Name, ErrUpdateReference)
-				continue
-			}
-
-			err := st.RemoveReference(cmd.Name)
-			setStatus(cmdStatus, firstErr, cmd.Name, err)
-		case packp.Update:
-			if !exists {
-				setStatus(cmdStatus, firstErr, cmd.Name, ErrUpdateReference)
-				continue
-			}
-
-			ref := plumbing.NewHashReference(cmd.Name, cmd.New)
-			err := st.SetReference(ref)
-			setStatus(cmdStatus, firstErr, cmd.Name, err)
+		return st.SetReference(plumbing.NewHashReference(cmd.Name, cmd.New))
+	case packp.Delete:
+		if !exists || !cur.Hash().Equal(cmd.Old) {
+			return ErrUpdateReference
 		}
+		return st.RemoveReference(cmd.Name)
+	case packp.Update:
+		if !exists || !cur.Hash().Equal(cmd.Old) {
+			return ErrUpdateReference
+		}
+		err := st.CheckAndSetReference(
+			plumbing.NewHashReference(cmd.Name, cmd.New),
+			plumbing.NewHashReference(cmd.Name, cmd.Old),
+		)
+		if errors.Is(err, storage.ErrReferenceHasChanged) {
+			return ErrUpdateReference
+		}
+		return err
+	default:
+		return ErrUpdateReference
 	}
 }
